@@ -1160,12 +1160,32 @@ impl Job for Ladder {
         out.count("distinct_nontrivial", 1);
         out.count("ladder_inputs_timed", times.len() as u64);
         // two successive doublings both growing faster than n^3.5, above a 50 ms floor
+        let growth = |times: &[(usize, f64)]| -> Option<usize> {
+            for (i, w) in times.windows(3).enumerate() {
+                let r1 = w[1].1 / w[0].1.max(1e-9);
+                let r2 = w[2].1 / w[1].1.max(1e-9);
+                if r1 > 11.3 && r2 > 11.3 && w[2].1 > 0.05 {
+                    return Some(i);
+                }
+            }
+            None
+        };
         let mut bad = false;
-        for w in times.windows(3) {
-            let r1 = w[1].1 / w[0].1.max(1e-9);
-            let r2 = w[2].1 / w[1].1.max(1e-9);
-            if r1 > 11.3 && r2 > 11.3 && w[2].1 > 0.05 {
+        if let Some(i) = growth(&times) {
+            // timing verdicts are confirmed: measure the three inputs again (best of three) and
+            // require the same pattern, so that scheduler noise on a loaded machine cannot raise it
+            let mut again: Vec<(usize, f64)> = vec![];
+            for (n, _) in &times[i..i + 3] {
+                let text = pump(&unit, *n);
+                let mut best = f64::MAX;
+                for _ in 0..3 {
+                    best = best.min(self.time_once(fe, &text));
+                }
+                again.push((*n, best));
+            }
+            if growth(&again).is_some() {
                 bad = true;
+                times.extend(again);
             }
         }
         let slowest = times.last().map(|t| t.1).unwrap_or(0.0);
